@@ -57,6 +57,12 @@ CLAIMS = {
             "any position incl. thread-local and batch members, siblings held inside run) — payload, no rerun, no dependent ran, all cells free (quiescent probe), "
             "world consistent, next dispatch exactly once.",
             EXE + " with fault injection (InvC14, InvC04x)", "DESIGN.md §5 C14"),
+    "C15": ("Async dispatcher: Async.tla (caller and background job as two processes, every call sequence of bounded length interleaved with the job; "
+            "safety invariants, the RunningAction property and the liveness property that every blocking call returns); real AsyncDispatcher sessions with "
+            "random call sequences while the background systems are held inside run: TLC checks on the recorded trace that blocking calls return only "
+            "when everything is complete, running() is true while a system runs and false only when all finished, dispatches never overlap or get lost, "
+            "thread-local systems only inside wait on the caller.",
+            "TLC model checking of Async.tla + real async sessions validated by ShredTrace (InvC15, InvC04x, InvC12)", "DESIGN.md §5 C15"),
     "C18": ("Builder totality: Planner.tla with the two reject actions at every position (C18Action) and the capacity invariant; real builder calls under "
             "catch_unwind: panic iff ill-formed, message quotes an offending name, nothing changed; long sequences, funnels into one group, unnamed systems.",
             PLN + " (InvC18, InvCap, C18Action)", "DESIGN.md §5 C18"),
